@@ -94,6 +94,19 @@ def apply(fn, site):
     return None
 
 
+NOT_EXECUTED = {}
+
+
+def load_not_executed(pid):
+    """lines of the modelled functions that the last clean run of the check did not execute (from its evidence file)"""
+    try:
+        ev = json.load(open(os.path.join(VERIF, "evidence", pid + ".json")))
+        for k, v in ev["coverage"]["line_coverage_of_modelled_code"]["functions"].items():
+            NOT_EXECUTED[k] = set(v.get("not_executed", []))
+    except (OSError, KeyError, ValueError):
+        pass
+
+
 def mutants(repo, modelled, rng, limit, only=None):
     res = []
     for rel, qual in sorted(set(modelled)):
@@ -105,7 +118,12 @@ def mutants(repo, modelled, rng, limit, only=None):
         fn = find_func(tree, qual)
         if fn is None:
             continue
+        skip = NOT_EXECUTED.get("%s:%s" % (rel, qual), set())
+        nodes = list(ast.walk(fn))
         for site in sites(fn):
+            ln = getattr(nodes[site[1]], "lineno", None)
+            if ln in skip:
+                continue            # the clean check never executes this line: a mutant there says nothing about the generators
             res.append((rel, qual, site))
     rng.shuffle(res)
     return res[:limit]
@@ -197,6 +215,7 @@ def main():
     mod = importlib.import_module("props." + a.prop)
     rng = random.Random(a.seed * 1000003 + int(a.prop[1:]))
     repo = "/repo"
+    load_not_executed(a.prop)
     ms = mutants(repo, getattr(mod, "MODELLED", []), rng, a.max, a.funcs.split(",") if a.funcs else None)
     wts = []
     for j in range(a.jobs):
